@@ -421,6 +421,11 @@ type dtGuard struct {
 	cond    ast.Expr
 	tag     ast.Expr // non-nil for switch case tests
 	outcome bool
+	fr      *dtFrame // frame the guard is read in (nil: the frame of the function the row is about)
+	// loopExit: the guard is the exit edge of a loop header passed on the way to the effect. skip: it mentions no atom the
+	// row declares, so it is context (the loop ran its course), not part of the decision.
+	loopExit bool
+	skip     bool
 }
 
 func pathGuards(g *an.Graph, n ast.Node) []dtGuard {
@@ -432,7 +437,7 @@ func pathGuards(g *an.Graph, n ast.Node) []dtGuard {
 		}
 		for _, b := range []bool{true, false} {
 			if g.GuardedBy(n, cd, b) {
-				out = append(out, dtGuard{cd, tag, b})
+				out = append(out, dtGuard{cond: cd, tag: tag, outcome: b})
 			}
 		}
 	}
@@ -464,7 +469,7 @@ func allPaths(g *an.Graph, n ast.Node) (paths [][]dtGuard, ok bool) {
 		cd, tag := g.Cond(b)
 		for i, s := range b.Succs {
 			if cd != nil && len(b.Succs) == 2 {
-				cur = append(cur, dtGuard{cd, tag, i == 0})
+				cur = append(cur, dtGuard{cond: cd, tag: tag, outcome: i == 0, loopExit: i == 1 && b.Kind == cfg.KindForLoop})
 			}
 			cont := walk(s)
 			if cd != nil && len(b.Succs) == 2 {
@@ -483,10 +488,17 @@ func allPaths(g *an.Graph, n ast.Node) (paths [][]dtGuard, ok bool) {
 	return paths, ok
 }
 
-func (ev *dtEval) evalGuards(gs []dtGuard, fr *dtFrame, env *dtEnv) (bool, error) {
+func (ev *dtEval) evalGuards(gs []dtGuard, fr0 *dtFrame, env *dtEnv) (bool, error) {
 	for _, gd := range gs {
 		var v bool
 		var err error
+		if gd.skip {
+			continue
+		}
+		fr := fr0
+		if gd.fr != nil {
+			fr = gd.fr
+		}
 		if gd.tag != nil && !isIntLike(fr.info.TypeOf(gd.tag)) {
 			// switch over a non-integer (an error value, a string): the case test is the atom tag==case
 			name := ev.atomName(ev.canon(gd.tag, fr)+"=="+ev.canon(gd.cond, fr), gd.cond.Pos(), env == nil)
